@@ -247,12 +247,24 @@ func c13Gen(r *kit.Rng, id string) *req.Session {
 				default:
 					// shape swap at a schema position
 					if payload != nil && src == "json" {
-						kids := payload.S.DataChildren()
+						var kids []*schema.Node
+						for _, c := range payload.S.DataChildren() {
+							if payload.Has(c.Name) { // swapping an absent node could name a second case of a choice
+								kids = append(kids, c)
+							}
+						}
 						if len(kids) > 0 {
 							t := kids[r.Intn(len(kids))]
 							repl := jsonRepl[r.Intn(len(jsonRepl))]
 							rq.Doc = shapeSwapJSON(payload, t, repl)
 							rq.Damage = "shape-swap:" + t.Kind.String()
+							// a container must be an object, a list an array of objects
+							switch t.Kind {
+							case schema.Container:
+								rq.MustReject = !strings.HasPrefix(repl, "{")
+							case schema.List:
+								rq.MustReject = !strings.HasPrefix(repl, "[") || (repl != "[]" && !strings.HasPrefix(repl, "[{"))
+							}
 						}
 					} else if payload != nil {
 						kids := payload.S.DataChildren()
@@ -522,8 +534,18 @@ func c13Batch(c *Check, tier string) int {
 		fmt.Printf("VIOLATION property=C13 replay=%s\n  key=%s (seen %d times)\n  %s\n", path, k, h.n, trunc(h.detail, 900))
 		exit = 1
 	}
+	var fpLines []string
+	for oi := range outs {
+		fpLines = append(fpLines, outs[oi].ID+"|"+outs[oi].LogHash)
+	}
+	sort.Strings(fpLines)
+	batch := kit.NewLog(0)
+	for _, l := range fpLines {
+		batch.Add("%s", l)
+	}
 	wall := time.Since(start).Seconds()
 	cov := map[string]interface{}{
+		"batch_fingerprint":   batch.HashHex(),
 		"evaluations":         evals,
 		"distinct_nontrivial": len(prints),
 		"rule":                "one session = a generated schema (half of them two-module schemas with every leaf type), a live store (map-/struct-backed Reflect and Node, control) pre-loaded with a conforming tree, and 5-30 requests, each first generated valid (edit with JSON or XML body at a Found path with upsert/insert/update; Find; read with query parameters from a catalogue; where= XPath from a catalogue; SetValue with a JSON-decoded Go value) and then, with probability 30/60/100% per session, passed through the fault channel: truncate, flip a byte (random or structural), drop/duplicate/swap a token, insert a structural character, reader error or EOF at byte k, (n,EOF) reads with seeded chunk sizes, shape swap at a schema position (object/array/scalar/null where another kind is declared, in JSON and XML), key on a non-list, step below a leaf, odd relative paths. Oracles per request: no panic, returns within the step budget, worker survives; a body cut strictly inside is rejected; after a rejected edit the store exports and every pre-existing leaf is unchanged or holds a value the request carries, and nothing the request does not address is removed; reads never change the store. evaluations counts requests; distinct_nontrivial counts distinct session logs (stream calls + per-request outcome)",
